@@ -192,11 +192,20 @@ def run(ctx):
     ctx.require(len(ubf) == 1 and len(next(iter(ubf.values()))) == 2, "u_value_gnd_slab: U_bf must have two branch definitions")
     for b, n, ln in next(iter(ubf.values())):
         conds = [(strip(c), bool_taken(tk)) for (_, d, c, tk) in s3.conditions(b)]
-        ctx.require(len(conds) == 1 and conds[0][0][0] == "bin" and conds[0][0][1] == "Lt", "u_value_gnd_slab: branch condition not of the form B_limit < B'")
+        ctx.require(len(conds) == 1 and conds[0][0][0] == "bin" and conds[0][0][1] in ("Lt", "Le", "Gt", "Ge"), "u_value_gnd_slab: the branch is not a comparison of d_t + z/2 with B'")
         cn, cv = conds[0]
         nz = FNormalizer(lmS, {})
-        okc = nz.code(cn[2]).equals(nz.ref("dt + 0.5*z")) and nz.code(cn[3]).equals(nz.ref("B"))
-        ctx.require(okc, "u_value_gnd_slab: branch condition is %s, expected d_t + z/2 < B'" % show(cn)[:80])
+        xl, xr = nz.code(cn[2]), nz.code(cn[3])
+        X, Bp = nz.ref("dt + 0.5*z"), nz.ref("B")
+        if xl.equals(X) and xr.equals(Bp):
+            below = cn[1] in ("Lt", "Le")         # condition true means d_t + z/2 below B'
+        elif xl.equals(Bp) and xr.equals(X):
+            below = cn[1] in ("Gt", "Ge")
+        else:
+            ctx.violation("c06.formula", "c06.formula|u_value_gnd_slab|branch", "the slab formulas are selected by `%s`, expected a comparison of d_t + z/2 with B'" % show(cn)[:80], f.loc(ln))
+            continue
+        # this definition applies where (d_t + z/2 < B') == cv
+        cv = (cv == below)
         if cv:
             compare(ctx, "c06.formula", "c06.formula|u_value_gnd_slab|poorly-insulated", n, "2*2.0/(PI*B + (dt + 0.5*z)) * ln(1 + PI*B/(dt + 0.5*z))", lmS, None, f.loc(ln), "U_bf (d_t + z/2 < B')")
         else:
